@@ -163,7 +163,10 @@ PROPS.update({
                    "can_replace_with, can_append, NodeType.valid_content, compatible_content, allows_marks: every predicate is tied to the compiled automaton and the mark permission table for all nodes, ranges and fragments.",
                    "agreement of the compiled automaton with the content expression (that is C06) and Node.check / create_checked against validity computed from the schema spec strings.",
                    min_obligations=150, bounded_only=["Node.check (recursive closure)", "create_checked (polymorphic content argument)", "expression vs automaton (C06)"]),
-    "C15": _bounded("C15", "c15", "fill_before / create_and_fill / find_wrapping on every reachable match state of 11 schemas against BFS oracles over independent automata (soundness, completeness, shortest chain, cache consistency). fill_before and compute_wrapping are a recursive closure with shared `seen` and a BFS over dict records: outside the verifiable subset."),
+    "C15": _hybrid("C15", "c15", ["contracts.model_content"],
+                   "the three building blocks of filling and wrapping: ContentMatch.match_type (first edge with that type name), match_fragment (== the automaton run over the children), default_type (the first edge whose type is generatable: not text, no required attributes).",
+                   "fill_before / create_and_fill / find_wrapping on every reachable match state of 11 schemas against BFS oracles over independent automata (soundness, completeness, shortest chain, cache consistency). fill_before and compute_wrapping are a recursive closure with a shared `seen` list and a BFS over dict records: outside the verifiable subset.",
+                   min_obligations=40, bounded_only=["fill_before (closure)", "compute_wrapping / find_wrapping (BFS over dict records, cache)", "create_and_fill"]),
     "C19": _bounded("C19", "c19", "HTML fragments from a grammar + fixed edge cases: parse terminates and is oracle-valid; serialisation succeeds and escapes; whitespace-normal documents round-trip; context rules vs an oracle matcher. lxml, CSS selectors and regular expressions are outside any contract the verifier can discharge."),
     "C10": dict(
         sidecars=[],
